@@ -45,6 +45,14 @@ type Raw struct {
 	Solver SolverStats
 }
 
+// Scheduler shares pending prefixes between worker processes.
+type Scheduler interface {
+	// Yield may take prefixes away from the front (oldest, shallowest) of work.
+	Yield(work *[][]int64)
+	// Idle blocks until work is available (returned) or all workers are done (nil).
+	Idle() [][]int64
+}
+
 // SolverStats are the solver counters of a run.
 type SolverStats struct {
 	NSat, NUnsat, NUnknown, NCacheHit, NFallback int
@@ -162,7 +170,19 @@ func (m *Machine) Explore(fn *ssa.Function, prefixes [][]int64, splitAt int) *Ra
 	m.St.AssertSeen = map[string]int{}
 	m.unknownAsserts = nil
 	nviolBefore := len(m.Violations)
-	for len(m.work) > 0 {
+	for {
+		if len(m.work) == 0 {
+			if m.Sched == nil {
+				break
+			}
+			more := m.Sched.Idle()
+			if len(more) == 0 {
+				break
+			}
+			m.work = more
+		} else if m.Sched != nil && raw.Paths%8 == 7 {
+			m.Sched.Yield(&m.work)
+		}
 		if splitAt > 0 && len(m.work) >= splitAt {
 			raw.Pending = m.work
 			m.work = nil
@@ -335,6 +355,7 @@ func (m *Machine) runPath(fn *ssa.Function, prefix []int64) (end pathEnd) {
 	m.onceDone = nil
 	m.sliceOf = map[*Value][]Value{}
 	m.clock = 0
+	m.model, m.modelValid, m.auxVars = nil, false, nil
 	defer func() {
 		r := recover()
 		switch r := r.(type) {
@@ -353,7 +374,14 @@ func (m *Machine) runPath(fn *ssa.Function, prefix []int64) (end pathEnd) {
 		case mergeAbort:
 			end = pathEnd{"unsupported", "merge abort escaped: " + r.why}
 		default:
-			panic(r)
+			if os.Getenv("SYMGO_CRASH") != "" {
+				panic(r)
+			}
+			where := ""
+			if m.lastFrame != nil {
+				where = " at " + m.lastFrame.where()
+			}
+			end = pathEnd{"unsupported", fmt.Sprintf("engine error: %v%s", r, where)}
 		}
 	}()
 	m.call(nil, fn, nil, nil)
